@@ -685,3 +685,232 @@ def getitem_theorems(c, result, self, index):
 for _c in CONTRACTS:
     if _c.qualname in ("pulsarbat.core.Signal.__getitem__", "pulsarbat.core.RadioSignal.__getitem__"):
         _c.theorems = getitem_theorems
+
+
+# --------------------------------------------------------------------------- polarisation (C13)
+
+def inst_dualpol(pols=("linear", "circular"), dtypes=("complex128", "complex64"), backends=("numpy",), extra=(0, 1)):
+    out = []
+    for pol in pols:
+        for dt in dtypes:
+            for be in backends:
+                for ex in extra:
+                    def build(interp, ctx, nm, pol=pol, dt=dt, be=be, ex=ex):
+                        return (mk_signal(interp, ctx, "z", "DualPolarizationSignal", pol=pol, dtype=dt, backend=be,
+                                          extra_rank=ex, align="bottom", nm=nm),), {}
+                    out.append(Instance(f"pol={pol},{dt},{be},extra={ex}", build))
+    return out
+
+
+def _pol_pair(c, g):
+    A0 = A.take(c.ctx, g.data, 0, 2)
+    A1 = A.take(c.ctx, g.data, 1, 2)
+    return A0, A1
+
+
+def _cx_dtype_after_norm(dt):
+    # (complex array) / np.sqrt(2): the NumPy float64 scalar promotes complex64 to complex128
+    return DType("complex128")
+
+
+def spec_to_circular(c, self):
+    """L = (X - iY)/sqrt2, R = (X + iY)/sqrt2; identity when already circular."""
+    g = c.view(self)
+    if g.pol == "circular":
+        return construct(c, g.cls, g.data, like_attrs(g, pol_type="circular"))
+    X, Y = _pol_pair(c, g)
+    I = Cx(0, 1)
+    h = V.HSQRT2
+    Lc = A.elementwise(c.ctx, lambda x, y: V.cmul(V.csub(x, V.cmul(I, y)), h), [X, Y], _cx_dtype_after_norm(g.data.dtype))
+    Rc = A.elementwise(c.ctx, lambda x, y: V.cmul(V.cadd(x, V.cmul(I, y)), h), [X, Y], _cx_dtype_after_norm(g.data.dtype))
+    return construct(c, g.cls, A.stack(c.ctx, [Lc, Rc], 2), like_attrs(g, pol_type="circular"))
+
+
+def spec_to_linear(c, self):
+    """Inverse of to_circular: X = (L + R)/sqrt2, Y = i(L - R)/sqrt2; identity when linear."""
+    g = c.view(self)
+    if g.pol == "linear":
+        return construct(c, g.cls, g.data, like_attrs(g, pol_type="linear"))
+    Lc, Rc = _pol_pair(c, g)
+    I = Cx(0, 1)
+    h = V.HSQRT2
+    X = A.elementwise(c.ctx, lambda l, r: V.cmul(V.cadd(l, r), h), [Lc, Rc], _cx_dtype_after_norm(g.data.dtype))
+    Y = A.elementwise(c.ctx, lambda l, r: V.cmul(V.cmul(I, V.csub(l, r)), h), [Lc, Rc], _cx_dtype_after_norm(g.data.dtype))
+    return construct(c, g.cls, A.stack(c.ctx, [X, Y], 2), like_attrs(g, pol_type="linear"))
+
+
+def _linear_pair(c, g):
+    """(X, Y) element functions of a dual-pol signal in either basis (statement's definition)."""
+    P0, P1 = _pol_pair(c, g)
+    if g.pol == "linear":
+        return P0, P1
+    I = Cx(0, 1)
+    h = V.HSQRT2
+    X = A.elementwise(c.ctx, lambda l, r: V.cmul(V.cadd(l, r), h), [P0, P1], "complex128")
+    Y = A.elementwise(c.ctx, lambda l, r: V.cmul(V.cmul(I, V.csub(l, r)), h), [P0, P1], "complex128")
+    return X, Y
+
+
+def spec_to_stokes(c, self):
+    """I = |X|^2+|Y|^2, Q = |X|^2-|Y|^2, U = 2Re(X* Y), V = 2Im(X* Y) from the linear pair,
+    whichever basis the signal is stored in."""
+    g = c.view(self)
+    X, Y = _linear_pair(c, g)
+    rdt = DType("float32" if g.data.dtype.name == "complex64" else "float64")
+
+    def m2(x):
+        x = Cx.of(x)
+        return V.add(V.mul(x.re, x.re), V.mul(x.im, x.im))
+    Iv = A.elementwise(c.ctx, lambda x, y: V.add(m2(x), m2(y)), [X, Y], rdt)
+    Qv = A.elementwise(c.ctx, lambda x, y: V.sub(m2(x), m2(y)), [X, Y], rdt)
+    Uv = A.elementwise(c.ctx, lambda x, y: V.mul(2, V.cmul(V.cconj(x), y).re), [X, Y], rdt)
+    Vv = A.elementwise(c.ctx, lambda x, y: V.mul(2, V.cmul(V.cconj(x), y).im), [X, Y], rdt)
+    attrs = g.attrs()
+    attrs.pop("pol_type")
+    return construct(c, clsinfo(c, "FullStokesSignal"), A.stack(c.ctx, [Iv, Qv, Uv, Vv], 2), attrs)
+
+
+def spec_to_intensity(c, self):
+    g = c.view(self)
+    rdt = DType("float32" if g.data.dtype.name == "complex64" else "float64")
+
+    def m2(x):
+        x = Cx.of(x)
+        return V.add(V.mul(x.re, x.re), V.mul(x.im, x.im))
+    attrs = g.attrs()
+    attrs.pop("pol_type", None)
+    return construct(c, clsinfo(c, "IntensitySignal"), A.elementwise(c.ctx, m2, [g.data], rdt), attrs)
+
+
+CONTRACTS.append(Contract("pulsarbat.core.DualPolarizationSignal.to_circular", spec_to_circular, inst_dualpol(backends=("numpy", "dask")), props=("C13",)))
+CONTRACTS.append(Contract("pulsarbat.core.DualPolarizationSignal.to_linear", spec_to_linear, inst_dualpol(backends=("numpy", "dask")), props=("C13",)))
+CONTRACTS.append(Contract("pulsarbat.core.DualPolarizationSignal.to_stokes", spec_to_stokes, inst_dualpol(backends=("numpy", "dask")), props=("C13",)))
+
+
+def inst_baseband_any():
+    out = []
+    for cls, kw in (("BasebandSignal", {}), ("DualPolarizationSignal", {"pol": "circular"})):
+        for dt in ("complex128", "complex64"):
+            for be in ("numpy", "dask"):
+                def build(interp, ctx, nm, cls=cls, kw=kw, dt=dt, be=be):
+                    return (mk_signal(interp, ctx, "z", cls, dtype=dt, backend=be, extra_rank=1, nm=nm, **kw),), {}
+                out.append(Instance(f"{cls},{dt},{be}", build))
+    return out
+
+
+CONTRACTS.append(Contract("pulsarbat.core.BasebandSignal.to_intensity", spec_to_intensity, inst_baseband_any(), props=("C13",)))
+
+
+# --------------------------------------------------------------------------- C13 lemmas over compositions of the real methods
+
+def M(interp, ctx, obj, name, *args, **kwargs):
+    """Call a method of an interpreter object through the real code / its contract."""
+    return interp.call(interp.get_attr(obj, name, ctx), tuple(args), kwargs, ctx)
+
+
+def lemma(name, body, spec, instances, props, real=None):
+    ct = Contract(f"lemma.{name}", spec, instances, props=props, body=body)
+    ct.real_call = real
+    CONTRACTS.append(ct)
+    return ct
+
+
+def _m2(x):
+    x = Cx.of(x)
+    return V.add(V.mul(x.re, x.re), V.mul(x.im, x.im))
+
+
+# round trips: each conversion is undone by the other
+lemma("C13.roundtrip", lambda interp, ctx, a, k: M(interp, ctx, M(interp, ctx, a[0], "to_circular"), "to_linear")
+      if a[0].ghost["pol"] == "linear" else M(interp, ctx, M(interp, ctx, a[0], "to_linear"), "to_circular"),
+      lambda c, self: construct(c, c.view(self).cls, A.astype(c.ctx, c.view(self).data, DType("complex128")), c.view(self).attrs()),
+      inst_dualpol(extra=(0,)), ("C13",),
+      real=lambda pb, a, k: a[0].to_circular().to_linear() if a[0].pol_type == "linear" else a[0].to_linear().to_circular())
+
+
+def _rel_elementwise(shape_of, clause, concrete_tol=1e-5):
+    """Relational spec over every element index of `shape_of(result)`."""
+    def mk(c, self):
+        g = c.view(self)
+
+        def sym(interp, ctx, name, got):
+            clause(c, g, got, ctx, name, None)
+
+        def conc(got, where, out, pb):
+            from pyvc.concrete import ConcTheoremCtx, Mismatch
+            cctx = ConcTheoremCtx()
+            old = V.CONC_TOL
+            V.CONC_TOL = concrete_tol
+            try:
+                clause(c, g, got, cctx, where, pb)
+            finally:
+                V.CONC_TOL = old
+            out.extend(Mismatch(n, "violated on the real result", "holds") for n in cctx.failed)
+        return Rel(sym, conc)
+    return mk
+
+
+def _view_any(c, v, pb):
+    """SigView of an interpreter object or of a real signal."""
+    if isinstance(v, Obj):
+        return c.view(v)
+    from pyvc.concrete import obj_from_real_signal
+    return c.view(obj_from_real_signal(c.interp, v, pb))
+
+
+def _forall_sample(c, ctx, shape, fn):
+    from pyvc.contract import SpecCtx
+    c2 = SpecCtx(c.interp, ctx, c.contract)
+    if getattr(ctx, "enumerate_quantifiers", False):
+        import itertools
+        for ix in itertools.product(*[range(int(d)) for d in shape]):
+            fn(ix)
+        return
+    with ctx.scope():
+        fn(A.fresh_index(ctx, shape, "s"))
+
+
+def clause_power(c, g, got, ctx, name, pb):
+    """Total power per sample is preserved by a basis change."""
+    r = _view_any(c, got, pb)
+    P0, P1 = _pol_pair(c, g)
+    Q0, Q1 = A.take(ctx, r.data, 0, 2), A.take(ctx, r.data, 1, 2)
+    _forall_sample(c, ctx, P0.shape, lambda ix: ctx.oblige(f"{name}.power-preserved",
+                   V.eq(V.add(_m2(Q0.elem(ix)), _m2(Q1.elem(ix))), V.add(_m2(P0.elem(ix)), _m2(P1.elem(ix)))), "post"))
+
+
+lemma("C13.power", lambda interp, ctx, a, k: M(interp, ctx, a[0], "to_circular" if a[0].ghost["pol"] == "linear" else "to_linear"),
+      _rel_elementwise(None, clause_power), inst_dualpol(extra=(0,)), ("C13",),
+      real=lambda pb, a, k: a[0].to_circular() if a[0].pol_type == "linear" else a[0].to_linear())
+
+
+def clause_stokes(c, g, got, ctx, name, pb):
+    """I >= 0, I^2 = Q^2 + U^2 + V^2, and I equals to_intensity summed over polarisations."""
+    r = _view_any(c, got, pb)
+    S = [A.take(ctx, r.data, k, 2) for k in range(4)]
+    P0, P1 = _pol_pair(c, g)
+
+    def at(ix):
+        i, q, u, v = (s.elem(ix) for s in S)
+        ctx.oblige(f"{name}.I-nonnegative", V.le(0, i), "post")
+        ctx.oblige(f"{name}.I2=Q2+U2+V2", V.eq(V.mul(i, i), V.add(V.add(V.mul(q, q), V.mul(u, u)), V.mul(v, v))), "post")
+        ctx.oblige(f"{name}.I=sum-intensity", V.eq(i, V.add(_m2(P0.elem(ix)), _m2(P1.elem(ix)))), "post")
+    _forall_sample(c, ctx, P0.shape, at)
+
+
+lemma("C13.stokes-identities", lambda interp, ctx, a, k: M(interp, ctx, a[0], "to_stokes"),
+      _rel_elementwise(None, clause_stokes, 2e-4), inst_dualpol(extra=(0,)), ("C13",),
+      real=lambda pb, a, k: a[0].to_stokes())
+
+# Stokes parameters are identical whichever basis they are computed from
+lemma("C13.stokes-basis-independent",
+      lambda interp, ctx, a, k: M(interp, ctx, M(interp, ctx, a[0], "to_circular" if a[0].ghost["pol"] == "linear" else "to_linear"), "to_stokes"),
+      lambda c, self: spec_to_stokes_f64(c, self), inst_dualpol(extra=(0,)), ("C13",),
+      real=lambda pb, a, k: (a[0].to_circular() if a[0].pol_type == "linear" else a[0].to_linear()).to_stokes())
+
+
+def spec_to_stokes_f64(c, self):
+    r = spec_to_stokes(c, self)
+    # after a basis change the data are complex128, so the Stokes parameters are float64
+    r.data = A.astype(c.ctx, r.data, DType("float64"))
+    return r
